@@ -34,6 +34,7 @@ pub fn preloaded(idx: Idx) -> &'static Preloaded {
             Idx::ALL,
             Idx {
                 age_opt: true,
+                opt_opt2: true,
                 emb: false,
                 ..Idx::ALL
             },
@@ -326,6 +327,57 @@ pub fn check_flush_snapshot(idx: Idx, start: &SeqModel, ops: &[Op], out: &ExecOu
             }
         }
         Err(e) => problems.push(("flush-snapshot|recover".into(), format!("state persisted when the concurrent flush returned does not reopen: {e}"))),
+    }
+    problems
+}
+
+
+/// Durability of the converged state: after all calls returned, one more
+/// flush and a fresh process over the store content must show the final
+/// model state (documents, indexes) and the extension value of the accepted
+/// order (a synchronous `set_extension` is persisted by the next flush).
+pub fn check_final_durability(live: &Live, coll: &Collection, idx: Idx, start: &SeqModel, ops: &[Op], out: &ExecOut, order: &[usize]) -> Vec<(String, String)> {
+    use crate::crash::{self, Backend, Expectation};
+    let mut m = start.clone();
+    for &i in order {
+        if let Some(o) = &out.outcomes[i] {
+            m.apply(&ops[i], o);
+        }
+    }
+    if coll.state() != anda_db::error::CollectionState::Active {
+        return vec![];
+    }
+    if let Err(e) = util::block_on(coll.flush(anda_db::unix_ms())) {
+        return vec![("final-flush".into(), format!("flush after all calls returned failed: {e:?}"))];
+    }
+    let content = ctlstore::snapshot(live.cs.inner());
+    let exp = Expectation {
+        images: m.docs.docs.iter().map(|(i, d)| (*i, vec![Some(d.clone())])).collect(),
+        want_idx: idx,
+        had_idx: idx,
+        allow_remedy: false,
+        flushed_ids: Default::default(),
+        in_flight: None,
+    };
+    let mut problems = Vec::new();
+    match util::block_on(crash::recover(&content, &exp, Backend::Mem)) {
+        Ok(rec) => {
+            let (ps, _) = util::block_on(crash::check_state(&rec.fx, &exp));
+            for (sig, msg) in ps {
+                problems.push((format!("final-durability|{sig}"), format!("after a final flush a fresh process disagrees with the converged state: {msg}")));
+            }
+            let ext = rec.fx.coll.get_extension("k").and_then(|v| match v {
+                anda_db::query::Fv::U64(x) => Some(x as u8),
+                _ => None,
+            });
+            if ext != m.ext {
+                problems.push((
+                    "final-durability|extension".into(),
+                    format!("after a final flush a fresh process reads extension k = {ext:?}, the accepted order gives {:?}", m.ext),
+                ));
+            }
+        }
+        Err(e) => problems.push(("final-durability|recover".into(), e)),
     }
     problems
 }
